@@ -180,7 +180,7 @@ def minimise(v):
 GEN = dict(
     respell=False,  # the MQTT flavour carries the header in topic levels; other spellings are C02's and C05's business
     max_ops=40, wire_carriable=False, allow_unpinned=True, wild_vt=True, flavours=FLAVOURS,
-    op_weights=dict(valid=45, wild=18, near=10, raw=8, set=12, fw=4, cb_raise=2, metric=1, clock=0, race=3),
+    op_weights=dict(valid=45, wild=18, near=10, raw=8, set=12, fw=4, cb_raise=2, metric=1, clock=0, race=3, desire=6),
 )
 
 
